@@ -423,4 +423,19 @@ theorem psMapIntoParts_sameTree (f : K → K) : ∀ (ps qs : List BTree) (h h' :
   | _ :: _, [], _, _, hl, _ => by simp at hl
 end
 
+/-! ### second operand from the space of the parts (broadcast over the parts) -/
+
+/-- `[x.ufuncs.f(x2) for x in self.elem]` when every part has the structure of `x2` -/
+theorem psBinAll_sub (op : K → K → K) (y : PTree K) : ∀ ps : List (PTree K),
+    (∀ p ∈ ps, p.sameShape y = true) →
+    ∃ rs, psBinAll op ps (.elem y) = some rs ∧
+      flattenParts rs = (ps.map (fun p => List.zipWith op p.flatten y.flatten)).flatten ∧
+      sameShapeParts rs ps = true
+  | [], _ => ⟨[], by simp [psBinAll], by simp [flattenParts], by simp [sameShapeParts]⟩
+  | p :: t, h => by
+      obtain ⟨r, h1, h2, h3⟩ := psBin_zip' op p y (h p (by simp))
+      obtain ⟨rs, h4, h5, h6⟩ := psBinAll_sub op y t (fun q hq => h q (by simp [hq]))
+      exact ⟨r :: rs, by simp [psBinAll, h1, h4], by simp [flattenParts, h2, h5],
+        by simp [sameShapeParts, h3, h6]⟩
+
 end OdlModel.UfuncValue
